@@ -95,7 +95,12 @@ def run_unit(unit_name, tier, seed, only_props=None):
             e = dict(o)
             e["name"] = "%s::%s" % (unit_name, o["id"])
             got = lines.get(o["id"])
-            if got is None and ub:
+            kw = getattr(unit, "UB_KEYWORDS", {}).get(o["id"])
+            if got is None and ub and kw and kw not in ub.split("last case started:")[-1]:
+                # Miri stopped the whole test binary while ANOTHER part of the enumeration was running
+                e.update({"status": "undecided", "reason": "the test binary was stopped by Miri (undefined behaviour in another part of the enumeration) before this part reported",
+                          "n_checks": 0, "solver_s": None, "failed_checks": []})
+            elif got is None and ub:
                 # Miri stopped the test binary: the obligations whose result line is missing fail with the UB report
                 e.update({"status": "failed", "reason": "contract violated on enumerated input: " + ub[:600], "n_checks": 0, "solver_s": None,
                           "failed_checks": [{"description": ub[:400]}], "native_failing_input": ub})
